@@ -479,6 +479,18 @@ func Explore(sc *core.Scenario, ex *Extra, tier string, st *core.Stats) ([]Hit, 
 			hit("C12.overwrite-true-ignored", fmt.Sprintf("loading with overwrite=true did not replace the existing entry (err=%v)", err), Extra{Op: "overwrite"})
 		}
 		count("overwrite", 2)
+		// an existing entry WITHOUT rules (created by GetKnowledgeBase for someone about to build into it) is an
+		// existing entry all the same
+		empty := ast.NewKnowledgeLibrary()
+		held := empty.GetKnowledgeBase(esim.KBName, esim.KBVersion)
+		kb3, err := load(image, nil, false, empty)
+		if err == nil || kb3 != nil {
+			hit("C12.overwrite-false-no-error", "loading with overwrite=false onto an existing (rule-less) name/version returned no error", Extra{Op: "overwrite"})
+		}
+		if empty.Library[key] != held || len(held.RuleEntries) != 0 {
+			hit("C12.overwrite-false-clobbered", "loading with overwrite=false replaced or filled the existing rule-less knowledge base", Extra{Op: "overwrite"})
+		}
+		count("overwrite", 3)
 	}
 	return hits, ""
 }
